@@ -42,7 +42,13 @@ func c19case(g *gen, id int) string {
 	for i := 0; i < n; i++ {
 		for try := 0; try < 50; try++ {
 			t := g.intn(3300)
-			if c19farFromTicks(t) && c19farFromTicks(t+life) {
+			dupT := false
+			for _, e := range evs {
+				if e.t == t {
+					dupT = true // two adds at the same planned instant have no defined order
+				}
+			}
+			if !dupT && c19farFromTicks(t) && c19farFromTicks(t+life) {
 				evs = append(evs, ev{t, true, val})
 				val++
 				break
